@@ -184,6 +184,7 @@ func C17Scenario() *Scenario {
 		pol.APIFaults = []string{"404", "409", "500", "neterr", "lost"}
 		pol.HookFault = []int{0, 80, 300}[t.Pick(3, "hookfaults")]
 		pol.HookFaults = []string{"500", "refused", "garbage"}
+		pol.HookFaultBurst = t.Pick(2, "hookburst") == 1
 		w.Cfg["policy"] = fmt.Sprintf("%s batch=%d apifault=%d hookfault=%d", pol.Name, pol.Batch, pol.APIFault, pol.HookFault)
 		fair := &Policy{Name: "fair+status", EnvWhenIdle: true, Batch: pol.Batch}
 		fps := map[string][]string{"cc": fieldPathsOf(cfg)}
